@@ -238,7 +238,7 @@ def joinFile (c : Crawl) (mn : Name) : Crawl :=
 /-- crawl_up(path) for an absolute path; never `.none` -/
 def crawlUp (fs : FS) (o : Opts) (path : Path) : Crawl :=
   match path.reverse with
-  | [] => .some [] []        -- not reachable from create_source_list (a path ending in .py has a last component)
+  | [] => crawlUpDir fs o [] -- not reachable from create_source_list (a path ending in .py has a last component)
   | fn :: rpar => joinFile (crawlUpDir fs o rpar.reverse) (moduleName fn)
 
 /-- `id.split(".")` of the dotted module string (the model keeps module ids as component lists; only a file
@@ -302,9 +302,15 @@ def findSourcesInDir (fs : FS) (o : Opts) : Nat → Path → Except Err (List Sr
   | 0, _ => .ok []
   | fuel + 1, path => loopDir fs o (findSourcesInDir fs o fuel) path (sortNames (fs.listdir path)) []
 
+/-- `path.endswith(PY_EXTENSIONS)` for a whole path -/
+def isPyArg (p : Path) : Bool :=
+  match p.getLast? with
+  | some fn => endsPy fn
+  | none => false
+
 /-- one command-line argument of create_source_list (absolute, normalised) -/
 def sourcesOfArg (fs : FS) (o : Opts) (fuel : Nat) (p : Path) : Except Err (List Src) :=
-  if (match p.getLast? with | some fn => endsPy fn | none => false) then
+  if isPyArg p then
     match crawlSrc fs o p with
     | .error e => .error e
     | .ok s => .ok [s]
@@ -374,26 +380,32 @@ inductive Scan
   | misses (l : List Path)
 deriving DecidableEq, Repr
 
-/-- one step of the scan of a candidate directory: a file that exists is returned when `verify` holds and
-    recorded as a near miss otherwise -/
-def hit (fs : FS) (ok : Bool) (p : Path) (k : List Path → Scan) (acc : List Path) : Scan :=
-  if fs.isFile p then
-    if ok then .found p else k (acc ++ [p])
-  else k acc
+/-- the package files looked for in a candidate directory, in the order of the code: the stub-only package
+    `<last>-stubs/__init__.pyi`, then `<last>/__init__.pyi`, `<last>/__init__.py` -/
+def pkgFiles (bd : Path) (last : Name) : List Path :=
+  [bd ++ [last ++ sStubs, initPyi], bd ++ [last, initPyi], bd ++ [last, initPy]]
 
-/-- the body of `for base_dir, verify in candidate_base_dirs:` for one directory `bd` (verify = True);
-    `nlev` = len(components) - 1 -/
+/-- "No package, look for module": `<last>.pyi`, `<last>.py` -/
+def modFiles (bd : Path) (last : Name) : List Path :=
+  [bd ++ [last ++ extPyi], bd ++ [last ++ extPy]]
+
+/-- "In namespace mode, register a potential namespace package":
+    `not has_init and exists_case(base_path) and not isfile_case(base_path)` -/
+def nsDir (fs : FS) (ns : Bool) (bd : Path) (last : Name) : List Path :=
+  if ns && !hasInit fs (bd ++ [last]) && (fs.isFile (bd ++ [last]) || fs.isDir (bd ++ [last])) && !fs.isFile (bd ++ [last])
+  then [bd ++ [last]] else []
+
+/-- the body of `for base_dir, verify in candidate_base_dirs:` for one directory `bd` (verify = True there);
+    `nlev` = len(components) - 1.  The sequence of `isfile_case` tests is unrolled: when `verify_module` holds the
+    first existing file is returned, otherwise every existing file (and the namespace directory, in its place
+    between packages and modules) is recorded as a near miss. -/
 def scanDir (fs : FS) (ns : Bool) (bd : Path) (last : Name) (nlev : Nat) : Scan :=
-  let ok := verifyFrom fs bd.reverse nlev
-  let basePath := bd ++ [last]
-  let hasInitPkg := fs.isFile (basePath ++ [initPyi]) || fs.isFile (basePath ++ [initPy])
-  hit fs ok (bd ++ [last ++ sStubs, initPyi]) (fun acc =>
-  hit fs ok (basePath ++ [initPyi]) (fun acc =>
-  hit fs ok (basePath ++ [initPy]) (fun acc =>
-    let acc := if ns && !hasInitPkg && (fs.isFile basePath || fs.isDir basePath) && !fs.isFile basePath
-               then acc ++ [basePath] else acc
-    hit fs ok (bd ++ [last ++ extPyi]) (fun acc =>
-    hit fs ok (bd ++ [last ++ extPy]) (fun acc => .misses acc) acc) acc) acc) acc) []
+  if verifyFrom fs bd.reverse nlev then
+    match (pkgFiles bd last ++ modFiles bd last).filter fs.isFile with
+    | p :: _ => .found p
+    | [] => .misses (nsDir fs ns bd last)
+  else
+    .misses ((pkgFiles bd last).filter fs.isFile ++ nsDir fs ns bd last ++ (modFiles bd last).filter fs.isFile)
 
 /-- `levels.index(max(levels))`: first element with the maximal level -/
 def pickBest : List (Path × Nat) → Option (Path × Nat)
@@ -465,5 +477,71 @@ def findModulesRecursive (fs : FS) (ns : Bool) (roots : List Path) : Nat → Lis
 
 /-- main.process_options: SearchPaths((cwd,), mypy_path, sys_path, ()) — searched as mypy_path + python_path -/
 def packageRoots (o : Opts) : List Path := o.mypyPath ++ [o.cwd]
+
+/-! ## the decidable side conditions of the `_partial` theorems (evaluated by the driver as well) -/
+
+/-- every component is a valid identifier other than `__init__` (what an `import` statement can spell) -/
+def importable (m : List Name) : Bool := !m.isEmpty && m.all (fun c => isIdent c && c != sInit)
+
+/-- the path below the base spells the module: `base/dc/x.py[i]` or `base/dc/x/__init__.py[i]` -/
+def spells (B : Path) (m : List Name) (f : Path) : Bool :=
+  match m.getLast? with
+  | none => false
+  | some x => (pkgFiles (B ++ m.dropLast) x).tail.contains f || (modFiles (B ++ m.dropLast) x).contains f
+
+/-- `crawl_up_dir(R) == ("", R)`: the search root is not itself inside a package -/
+def goodRoot (fs : FS) (o : Opts) (R : Path) : Bool := crawlUpDir fs o R == Crawl.some [] R
+
+/-- no explicit package base at `R/c1`, `R/c1/c2`, … (components given innermost first) -/
+def noBaseBelow (o : Opts) (R : Path) : List Name → Bool
+  | [] => true
+  | c :: rq => !o.isBase (R ++ (c :: rq).reverse) && noBaseBelow o R rq
+
+/-- no explicit package base strictly inside a search root along the module path (nor at its `-stubs` twin) -/
+def noInnerBase (o : Opts) (roots : List Path) (m : List Name) : Bool :=
+  roots.all fun R => noBaseBelow o R m.reverse &&
+    !o.isBase (R ++ m.dropLast ++ [m.getLast?.getD [] ++ sStubs])
+
+/-- with explicit package bases every search root is one of them (no source lies outside all bases) -/
+def rootsExplicit (o : Opts) (roots : List Path) : Bool := !o.epb || roots.all o.isBase
+
+/-- the F10 cell: in namespace mode the module's own package chain is not fully `__init__`-verified AND some
+    search root has a bare (no `__init__`) directory named like the module; `noBareDir` says we are outside it -/
+def noBareDir (fs : FS) (o : Opts) (roots : List Path) (B : Path) (m : List Name) : Bool :=
+  !o.ns || verifyFrom fs (B ++ m.dropLast).reverse (m.length - 1) ||
+    roots.all fun R => (nsDir fs true (R ++ m.dropLast) (m.getLast?.getD [])).isEmpty
+
+/-- the sibling stub of a source file: `x.py` ↦ `x.pyi` (also `__init__.py` ↦ `__init__.pyi`) -/
+def stubOf (p : Path) : Path :=
+  match p.getLast? with
+  | some fn => if (stripSuffix? extPy fn).isSome then p.dropLast ++ [fn ++ ['i']] else p
+  | none => p
+
+/-- the two roots that come from the configuration rather than from the sources are genuine bases -/
+def goodRoots (fs : FS) (o : Opts) : Bool := (o.mypyPath ++ [o.cwd]).all (goodRoot fs o)
+
+/-- the file `find_module` returns for the module of `s` is `s` itself, its sibling stub, or another file named
+    on the command line (so that an unlisted file shadowing `s` is excluded) -/
+def foundListed (fs : FS) (o : Opts) (srcs : List Src) (s : Src) : Bool :=
+  match findSrc fs o srcs s with
+  | none => true
+  | some g => g = s.path || g = stubOf s.path || !fs.isFile g || srcs.any (fun s' => s'.path = g)
+
+/-- all per-source side conditions of `roundtrip_or_duplicate_partial` -/
+def cellOK (fs : FS) (o : Opts) (srcs : List Src) (s : Src) : Bool :=
+  match s.base with
+  | none => false
+  | some B =>
+    fs.isFile s.path && importable s.module && spells B s.module s.path &&
+    noInnerBase o (searchRoots o srcs) s.module && noBareDir fs o (searchRoots o srcs) B s.module &&
+    foundListed fs o srcs s
+
+/-- the conclusion for one source, as a Bool (for the driver and the witnesses) -/
+def roundTrips (fs : FS) (o : Opts) (srcs : List Src) (s : Src) : Bool :=
+  findSrc fs o srcs s = some s.path || findSrc fs o srcs s = some (stubOf s.path)
+
+/-- two listed files with different paths and the same module id -/
+def hasDuplicate (srcs : List Src) : Bool :=
+  srcs.any fun s => srcs.any fun s' => s.path != s'.path && s.modId = s'.modId
 
 end Layout
